@@ -1,4 +1,5 @@
 import os
+import re
 """Extra deciders that are not Verus units: syntactic declaration-shape obligations (serde-derive behaviour itself is
 assumption A-serde) and censuses.  Each returns dicts {obligation, status: ok|fail|undecided, engine, what, detail, trusted[], cmd}."""
 import json
@@ -120,7 +121,7 @@ def replay_part(pid, tier):
 
 
 # properties with probes in the compiled-code harness (/verif/replay-exec): what serde does with the generated declarations
-EXEC_PROPS = ("C01", "C03", "C04", "C05", "C09", "C10", "C16", "C18")
+EXEC_PROPS = ("C01", "C03", "C04", "C05", "C09", "C10", "C14", "C16", "C18")
 
 
 def exec_part(pid, tier):
@@ -172,6 +173,40 @@ def extra_checks(pid, tier):
     return out0 + extra_checks_inner(pid, tier)
 
 
+# process-wide state of the generator crates.  The two caches of lib.rs are under contract (unit `cache`: every entry is F(key)); the
+# functions under contract cannot reach any other static (Verus rejects an exec function that touches a static with interior
+# mutability).  A NEW piece of process-wide state is therefore outside every contract: whether the output still is a function of the
+# inputs alone is not decided by the proofs - the check answers undecided and the history family of C08 searches for a witness.
+C08_KNOWN_STATE = {("graphql_client_codegen/src/lib.rs", "SCHEMA_CACHE"), ("graphql_client_codegen/src/lib.rs", "QUERY_CACHE")}
+
+
+def c08_frame():
+    import glob
+    r = {"obligation": "C08.frame.process_wide_state", "status": "ok", "engine": "source scan of graphql_client_codegen/src and graphql_query_derive/src (statics, lazy_static!, thread_local!, once cells)",
+         "what": "the only process-wide state of the generator is the two caches that unit `cache` has under contract", "trusted": [], "cmd": "lib/vxextra.py c08_frame"}
+    found = []
+    for base in ("graphql_client_codegen/src", "graphql_query_derive/src"):
+        for f in sorted(glob.glob(os.path.join(REPO, base, "**", "*.rs"), recursive=True)):
+            rel = os.path.relpath(f, REPO)
+            if "/tests/" in rel or rel.endswith("tests.rs"):
+                continue
+            src = re.sub(r"//[^\n]*", "", open(f).read())
+            for m in re.finditer(r"\bstatic\s+(?:ref\s+|mut\s+)?([A-Za-z_][A-Za-z0-9_]*)\s*:", src):
+                found.append((rel, m.group(1)))
+            for m in re.finditer(r"\b(thread_local\s*!|OnceCell\b|OnceLock\b|LazyLock\b|LazyCell\b)", src):
+                found.append((rel, m.group(1).replace(" ", "")))
+    extra = sorted(set(found) - C08_KNOWN_STATE)
+    missing = sorted(C08_KNOWN_STATE - set(found))
+    r["cases"] = len(found)
+    if extra:
+        r["status"] = "undecided"
+        r["detail"] = "process-wide state outside the contracts: %s - the proofs do not decide whether generation still is a function of its inputs alone" % ", ".join("%s in %s" % (n, f) for (f, n) in extra)
+    elif missing:
+        r["status"] = "undecided"
+        r["detail"] = "lost anchor: the caches %s are no longer where unit `cache` expects them" % ", ".join(n for (_, n) in missing)
+    return [r]
+
+
 def extra_checks_inner(pid, tier):
     try:
         if pid in ("C13", "C07", "C03", "C14", "C06"):
@@ -195,6 +230,8 @@ def extra_checks_inner(pid, tier):
             return c16_shape()
         if pid == "C05":
             return c05_shape()
+        if pid == "C08":
+            return c08_frame()
     except Undecided as e:
         return [{"obligation": pid + ".shape", "status": "undecided", "engine": "declaration-shape", "detail": str(e)}]
     return []
